@@ -35,6 +35,8 @@ fn per_slot_wide(i: u8, k: u8, v: &mut Vec<Op>) {
     v.push(Insert(i, Idx::Past, 0));
     v.push(Insert(i, Idx::Inside, 1));
     v.push(InsertStr(i, Idx::Past, 1));
+    v.push(InsertStr(i, Idx::Past, 0));
+    v.push(InsertStr(i, Idx::Inside, 0));
     for ix in [Idx::Zero, Idx::One, Idx::Mid, Idx::Last, Idx::Len, Idx::Past, Idx::Inside] {
         v.push(Truncate(i, ix));
     }
